@@ -271,7 +271,7 @@ class Ctx:
         return red
 
     # ---- C
-    def to_c(self, ll, name, overrides=(), stubs=('cxxrt.c', 'vp_cbmc.c'), traps=(), empties=()):
+    def to_c(self, ll, name, overrides=(), stubs=('cxxrt.c', 'vp_cbmc.c'), traps=(), empties=(), cha_loose=False):
         d = os.path.dirname(ll)
         out = os.path.join(d, name + '.c')
         info = os.path.join(d, name + '.info.json')
@@ -286,6 +286,8 @@ class Ctx:
                     cands.append('%s:%s:%s' % (m.group(1), m.group(2), m.group(3).replace(' ', '')))
         for cnd in cands:
             cmd += ['--candidate', cnd]
+        if cha_loose:
+            cmd.append('--cha-loose')
         for t in traps:
             cmd += ['--trap', t]
         for t in empties:
@@ -578,7 +580,8 @@ class Module:
         if self.inline:
             ll = ctx.inline_ir(ll, keep_rx=list(self.traps) + list(self.empties) + ['^' + re.escape(o) + '$' for o in self.overrides]
                                + ['^' + re.escape(entry) + '$', '^vp_'])
-        cfile, info = ctx.to_c(ll, entry, overrides=self.overrides, stubs=self.stubs, traps=self.traps, empties=self.empties)
+        cfile, info = ctx.to_c(ll, entry, overrides=self.overrides, stubs=self.stubs, traps=self.traps, empties=self.empties,
+                                cha_loose=getattr(self, 'cha_loose', False))
         with self._lock:
             self.cfiles[entry] = cfile
             self.info = info
